@@ -79,6 +79,15 @@ func (e *Exec) ev(x ast.Expr) Val {
 	case *ast.CompositeLit:
 		return e.evCompositeLit(x)
 	case *ast.FuncLit:
+		// a literal with its own 'closure k' contract is treated as escaping: from now on any call whose body
+		// we do not see may run it (its captured variables are havoc'd subject to its guarantee)
+		if e.contract != nil {
+			if k, ok := e.litOrd[x]; ok {
+				if cct := e.topContractClosures()[k]; cct != nil {
+					e.escaped = append(e.escaped, escapedLit{lit: x, ct: cct, pkg: e.pkg, pos: x.Pos()})
+				}
+			}
+		}
 		return FuncV{Lit: x, Pkg: e.pkg, Owner: e.frame()}
 	case *ast.TypeAssertExpr:
 		v := e.ev(x.X)
@@ -960,5 +969,50 @@ func (e *Exec) unwrapFacts(ref string, t types.Type) {
 			e.assume(mkImp(mkNot(mkEq(w, "0")), mkAnd(sx("wraps", ref, w),
 				fmt.Sprintf("(forall ((s Int)) (! (=> (wraps %s s) (wraps %s s)) :pattern ((wraps %s s))))", w, ref, ref))))
 		}
+	}
+}
+
+func (e *Exec) topContractClosures() map[int]*Contract {
+	if e.parentClosures != nil {
+		return e.parentClosures
+	}
+	if e.contract != nil {
+		return e.contract.Closures
+	}
+	return nil
+}
+
+// invokeEscaped models "an escaped closure may have run during this call".
+func (e *Exec) invokeEscaped() {
+	for _, es := range e.escaped {
+		vars := assignedFreeVars(es.lit, es.pkg.TypesInfo)
+		if len(vars) == 0 {
+			continue
+		}
+		old := e.st.clone()
+		for _, v := range vars {
+			if _, ok := e.st.vars[v]; ok {
+				e.st.vars[v] = e.havocVal(v.Name(), v.Type())
+			}
+		}
+		env := e.topEnv(e.st)
+		env.old = old
+		env.scopePos = es.lit.Body.Lbrace + 1
+		env.entry = nil
+		var gs []string
+		for _, g := range es.ct.Guarantees {
+			gs = append(gs, e.specBool(g, env))
+		}
+		// either it did not run (nothing changed) or the guarantee relates before and after
+		var same []string
+		for _, v := range vars {
+			if ov, ok := old.vars[v].(SV); ok {
+				if nv, ok := e.st.vars[v].(SV); ok {
+					same = append(same, mkEq(ov.T, nv.T))
+				}
+			}
+		}
+		e.assume(mkOr(mkAnd(same...), mkAnd(gs...)))
+		e.trusted["closure "+es.ct.Key+": guarantee (verified separately as obligation guarantee#*)"] = true
 	}
 }
